@@ -69,6 +69,22 @@ def gen(rng, tier):
             for so in (0, 1):
                 j, _ = txgen.rand_tx(rng, kind=kind, chain=chain)
                 cases.append(Case("cli.sign_tx %s - default %s %d %d" % (mn_, hx(j), so, allow), tags=("cli", "kind:" + kind, "allow:%d" % allow), runner="cli", meta={"via": {}, "via_file": False}))
+    # every numeric field of every kind with a value no unsigned field can take (negative integer / float, fraction): refused
+    # whichever field and kind it is — what is signed is what the document says, or nothing
+    from vlib.txgen import Raw as _Raw
+    import json as _json3
+    NUMF = {"legacy": ["chainId", "nonce", "gasPrice", "gas", "value"], "eip2930": ["chainId", "nonce", "gasPrice", "gas", "value"],
+            "eip1559": ["chainId", "nonce", "maxPriorityFeePerGas", "maxFeePerGas", "gas", "value"]}
+    for kind, flds in NUMF.items():
+        j0, _ = txgen.rand_tx(rng, kind=kind, chain=1, spellings=["int"], al_shape=[1])
+        for f in flds:
+            for tok in ("-1", "-2.0e3", "-0.5", "1.5", "-1e-3"):
+                obj = _json3.loads(j0)
+                txt = _json3.dumps(obj)
+                # splice the raw token in place of the field's value
+                obj[f] = "@@TOKEN@@"
+                txt = _json3.dumps(obj).replace('"@@TOKEN@@"', tok)
+                cases.append(Case("tx.sign %s %s" % (hx(txt), key()), tags=("bad-number", "kind:" + kind, "field:" + f)))
     # which kind a document is: every subset of the pricing / access-list fields, with and without chain id
     for j, sub, wc in txgen.field_mixes(rng):
         cases.append(Case("tx.sign %s %s" % (hx(j), key()), tags=("field-mix", "fields:" + sub)))
